@@ -46,6 +46,8 @@ def pipeline_policy(extra=None):
            "events.py::subscribe": lambda eng, c: NativeFn("subscribe-decorator", lambda f: f)}
     for code in ("code0", "code1", "code2", "code4", "code4p"):
         pol[f"{INTERP}/{code}.py::{code}"] = interpolator_contract(code)
+    import pyhf.schema as _schema          # the schema module keeps its settings on a module subclass: read natively
+    pol[("module_attr", "pyhf.schema", "version")] = str(_schema.version)
     pol.update(extra or {})
     return pol
 
